@@ -1,0 +1,13 @@
+//go:build !verif
+
+package tmengine
+
+import (
+	"context"
+
+	"github.com/gordian-engine/gordian/tm/tmengine/internal/tmstate"
+)
+
+// verifInterpose is a no-op unless built with the verif tag;
+// see hooks_verif.go.
+func verifInterpose(context.Context, *Engine, *tmstate.StateMachineConfig, int) {}
